@@ -91,12 +91,21 @@ class Executor(StmtMixin, ExprMixin, CallMixin, LibMixin):
         out = []
         preds = sorted(self.cls_preds)
         infos = {p: self.repo.cls(p) for p in preds}
+        groups = [("IInput", "IOutput"), ("IComponent",), ("Info",), ("GridBase",), ("Composition",)]
+        roots = {}
+        for p in preds:
+            for gi, g in enumerate(groups):
+                if any(self.repo.has_cls(b) and self.repo.cls(b) in infos[p].mro for b in g):
+                    roots.setdefault(p, set()).add(gi)
         for e in path.cls_terms.values():
             k = self.clsof(e)
             for d in preds:
                 for c in preds:
                     if d != c and infos[c] in infos[d].mro:
                         out.append(sv.Implies(self.isa(d, k), self.isa(c, k)))
+                    # assumption (listed): slots, components, Info objects and grids are disjoint families
+                    if d < c and roots.get(d) and roots.get(c) and not (roots[d] & roots[c]):
+                        out.append(sv.Not(sv.And(self.isa(d, k), self.isa(c, k))))
         return out
 
     # ------------------------------------------------------------------ obligations
